@@ -167,7 +167,8 @@ fn allocate_jit_memory_windows(_src: &FuncPtrInternal, code_size: usize) -> *mut
             if !ptr.is_null() {
                 let allocated = ptr as u64;
                 let diff = allocated.abs_diff(original_addr);
-                if diff <= max_range {
+                // strictly inside the window: a block exactly 128MB above cannot be reached by `B`
+                if diff < max_range {
                     return ptr as *mut u8;
                 } else {
                     unsafe {
